@@ -26,7 +26,7 @@
 (***************************************************************************)
 EXTENDS Naturals, Integers, Sequences, FiniteSets, TLC, TraceIO
 Items == 1..63
-Ops == 1..15
+Ops == 1..319
 VARIABLES l,
           bad,        \* the current execution has been rejected (its remaining events are skipped)
           curX,       \* id of the current execution (field x of its Reset event)
